@@ -29,10 +29,13 @@ C = {
          "TLA+ Script VM as reference executor vs. real Interpreter on mutated witnesses (Trace_Interp)"),
  "C17": ("plan-pipeline", "model_checking", "plans from real Assets vs. the equivalent satisfier (existence equivalence, byte-identical completion) and necessity/sufficiency of reported locks by re-completing the plan in transactions with exact / weaker locks and validating each in the TLA+ VM; bounded-exhaustive over ASTs x wrappers x worlds x 2 modes", "5/C17",
          "TLA+ VerifyInput on plan completions under exact and weakened lock environments (Trace_Plan)"),
+ "C18": ("policy-pipeline", "model_checking", "normalized/sorted/at_age/at_lock_time/entails/minimum_n_keys/n_keys/Concrete::lift/check_timelocks of the real library on an exhaustively enumerated policy domain, each answer judged by TLC against atom truth tables (all assignments) of PolicyAtoms.tla; entails on all ordered pairs of the small set", "5/C18",
+         "TLA+ truth-table semantics (PolicyAtoms.tla) vs. library policy transformations (Trace_Policy)"),
  "C19": ("pairs-pipeline", "model_checking", "full ordered pair matrix of ==, cmp, hash and to_string over every well-typed miniscript up to the node bound plus near-miss families, in explicit and sugared text, 4 contexts; every cell judged against abstract AST identity; ordering checked to be a strict total order (distinct scores)", "5/C19",
          "structural identity of abstract ASTs (TLA+ Gen_Pairs) vs. library Eq/Ord/Hash matrix (Trace_Eq)"),
 }
 ENG = {
+ "policy-pipeline": ("bin/check (run_policy)", "TLC Gen_Policy -> msverif policy -> TLC Trace_Policy"),
  "nonmall-pipeline": ("bin/check (run_nonmall)", "TLC Gen_Sat -> msverif sat -> TLC Trace_NonMall"),
  "plan-pipeline": ("bin/check (run_plan)", "TLC Gen_Sat -> msverif plan (Assets, plan/plan_mall, lock variants) -> TLC Trace_Plan"),
  "interp-pipeline": ("bin/check (run_interp)", "TLC Gen_Sat -> msverif interp (library satisfactions + rendered mutations) -> TLC Trace_Interp"),
